@@ -1,4 +1,4 @@
 From Coq Require Extraction ExtrOcamlBasic.
 From NQ Require Import Addr.Tok Mem.TokCount Mem.Stralloc Mem.Netstr Mem.DnsParse Mem.Substdio.
 Extraction Language OCaml.
-Extraction "extracted_C20.ml" count_pass readyplus ready append catb copyb quote_size getlen rcpt_decide resolve_walk walk dn_simple o_run o_init getlns_all i_init.
+Extraction "extracted_C20.ml" count_pass readyplus ready append catb copyb quote_size getlen rcpt_decide resolve_walk walk dn_simple o_run o_init getlns_all i_init i_get.
